@@ -164,7 +164,15 @@ AllChains(S) == [di \in 1..NRules(S) |-> ChainsOfDef(S, di, <<di>>)]
    A variable's constraints are evaluated where the variable is first met in the chain, with the
    bindings made so far ("a component constraint can only refer to previously defined pattern");
    an option naming a pattern without a value does not hold. They are evaluated also when the
-   variable already has a value from ctx0 (C12: "all of the key rule's component constraints satisfied"). *)
+   variable already has a value from ctx0 (C12: "all of the key rule's component constraints satisfied").
+   Forward references (triage, round 8): `#r: a/b/c & { a: b }` matches NO name, not even /x/x/c - b has no value
+   when a is matched; lvs.rst says so in so many words ("/a/b/c & {b: c} will match nothing by itself, because c
+   does not have a value when b is matched. Consider write /a/b/c & {c: b} instead") and the library's
+   test_future_reference asserts it.  "Satisfied by one of its options" (C11) is read with this evaluation order.
+   A constraint on a named pattern that the constraining rule's own name does not contain is legal as soon as the
+   pattern occurs in some name (ConsOkIn); it is inherited with all others ("the component constraints of those
+   rules will be inherited") and takes effect in a chain that contains the pattern - NamedCons keeps every
+   constraint on a named pattern, ConsHold looks at it where the variable is first met. *)
 
 ArgVal(a, ctx) == IF a.k = "v" THEN a.v ELSE IF a.p \in DOMAIN ctx THEN ctx[a.p] ELSE Unbound
 OptHolds(o, c, ctx) == IF o.k = "v" THEN c = o.v
